@@ -974,7 +974,13 @@ class Bytes(Construct):
 
     def _build(self, obj, stream, context, path):
         length = self.length(context) if callable(self.length) else self.length
-        data = integer2bytes(obj, length) if isinstance(obj, int) else obj
+        if isinstance(obj, int):
+            try:
+                data = integer2bytes(obj, length)
+            except ValueError as e:
+                raise IntegerError(str(e), path=path)
+        else:
+            data = obj
         data = bytes(data) if type(data) is bytearray else data
         stream_write(stream, data, length, path)
         return data
